@@ -329,3 +329,93 @@ class Link(object):
     def delivered(self, dst):
         """Everything ever delivered to side ``dst``."""
         return bytes(self.inp[dst].log)
+
+
+# ---------------------------------------------------------------------------
+# blocking transport for the thread based API runs
+# ---------------------------------------------------------------------------
+import threading
+
+
+class BlockingPipe(object):
+    def __init__(self):
+        self.q = bytearray()
+        self.eof = False
+        self.log = bytearray()
+        self.cv = threading.Condition()
+
+
+class BlockingSock(object):
+    """Blocking socket end; ``recv_sizes`` / ``send_sizes`` (cycled) bound
+    how many bytes one call moves."""
+
+    def __init__(self, rx, tx, recv_sizes=(), send_sizes=(), timeout=20.0):
+        self.rx, self.tx = rx, tx
+        self.recv_sizes = [k for k in recv_sizes if k > 0]
+        self.send_sizes = [k for k in send_sizes if k > 0]
+        self.ri = self.si = 0
+        self.timeout = timeout
+        self.closed = False
+
+    def recv(self, n):
+        if self.recv_sizes:
+            n = min(n, self.recv_sizes[self.ri % len(self.recv_sizes)])
+            self.ri += 1
+        with self.rx.cv:
+            end = _time.time() + self.timeout
+            while not self.rx.q and not self.rx.eof:
+                left = end - _time.time()
+                if left <= 0:
+                    raise socket.timeout("harness timeout")
+                self.rx.cv.wait(left)
+            out = bytes(self.rx.q[:n])
+            del self.rx.q[:n]
+            return out
+
+    def send(self, data):
+        k = len(data)
+        if self.send_sizes:
+            k = min(k, self.send_sizes[self.si % len(self.send_sizes)])
+            self.si += 1
+        with self.tx.cv:
+            self.tx.q += data[:k]
+            self.tx.log += data[:k]
+            self.tx.cv.notify_all()
+        return k
+
+    def sendall(self, data):
+        data = bytes(data)
+        while data:
+            k = self.send(data)
+            data = data[k:]
+
+    def close(self):
+        self.closed = True
+        with self.tx.cv:
+            self.tx.eof = True
+            self.tx.cv.notify_all()
+
+    def shutdown(self, how):
+        with self.tx.cv:
+            self.tx.eof = True
+            self.tx.cv.notify_all()
+
+    def getsockname(self):
+        return ("blocking", 0)
+
+    getpeername = getsockname
+
+    def settimeout(self, v):
+        pass
+
+    def gettimeout(self):
+        return None
+
+    def setsockopt(self, *a):
+        pass
+
+    def fileno(self):
+        return -1
+
+
+import time as _time
